@@ -20,7 +20,7 @@ import vlib
 from vlib import Check, Broken, log
 
 ALL_OPS = ["krig_u", "krig_m", "krig_mb", "neigh_u", "neigh_m", "neigh_mb", "xvalid_u", "xvalid_m", "vario", "vario_cov", "stat",
-           "stat_iso", "cov", "cov_sym", "drift", "simtub", "simtub_pt", "migrate", "migrate_ball", "migrate_grid",
+           "stat_iso", "cov", "cov_sym", "drift", "simtub", "simtub_pt", "simtub_exp", "migrate", "migrate_ball", "migrate_grid",
            "migrate_fill", "reduce"]
 F_OPS = ["krig_u", "krig_m", "krig_mb", "neigh_u", "neigh_m", "xvalid_u", "xvalid_m", "drift"]
 V_OPS = ["krig_u", "krig_m", "xvalid_u", "cov_sym", "drift"]
@@ -49,7 +49,6 @@ TIERS = {
 }
 FEATS = ["sel_off", "coord_na", "zall_na", "hetero", "f_na", "v_na", "odd_sel", "none_usable", "clean"]
 Z1 = [2.5, -1.25, 4.75, 0.5]
-HANG_PROBE = 4          # predicted hangs actually executed per layout before the rest is taken as confirmed
 TOL_KRIG = 1e-9
 TOL_SUM = 1e-12
 
@@ -125,6 +124,8 @@ class Comparer:
 
     def disagree(self, case, o, form, detail, res):
         rec = {"op": o["op"], "form": form, "predicted_by_model": bool(o["dev"]), "layout": self.layout}
+        if form == "crash":
+            rec["crash_signal"] = detail["signal"]
         for f in FEATS:
             rec[f] = bool(case["feat"][f])
         rec["detail"] = detail
@@ -197,7 +198,7 @@ class Comparer:
             return None if M["i"] == R["i"] and M["st"] == R["st"] else "selected samples differ"
         if R["st"] == "empty":
             # nothing usable: the masked run must fail or return nothing but undefined values / empty matrices
-            if op in ("simtub", "simtub_pt"):
+            if op in ("simtub", "simtub_pt", "simtub_exp"):
                 return None          # no promise without any conditioning datum
             if op in ("cov", "cov_sym", "drift"):
                 mats, _ = split_matrices(M)
@@ -406,9 +407,6 @@ def run_layout(ck, tier, name, maxn, exe, workers, tlc_workers, totals):
     nbatch = [0]
     t_harness = [0.0]
 
-    def is_hang(o):
-        return bool(o["dev"] and o["code"] and (o["code"] == [[0, 0]] or (o["kind"] == "datasrc" and o["code"][0] == [[0, 0]])))
-
     def execute(batch):
         """batch: list of (case, [ops to run]); runs the harness and compares; returns the results per (id, op)"""
         if not batch:
@@ -445,22 +443,7 @@ def run_layout(ck, tier, name, maxn, exe, workers, tlc_workers, totals):
             raise Broken("layout %s: %d results for %d runs" % (name, len(results), want))
         return results
 
-    # 1. a hang predicted by the transcription costs its time-out: probe a limited number of them first; the
-    #    others are executed only if one of the probes returns
-    nprobe = HANG_PROBE if tier == "quick" else 3 * HANG_PROBE
-    probes, probed = [], set()
-    with open(casesp) as f:
-        for line in f:
-            c = json.loads(line)
-            hl = [o for o in c["ops"] if is_hang(o)]
-            if hl and len(probes) < nprobe:
-                probes.append((c, hl))
-                probed.update((c["id"], o["op"]) for o in hl)
-    pres = execute(probes)
-    all_hung = all("crash" in r and r["crash"].startswith("timeout") for r in pres.values())
-    nres_total = len(pres)
-    skipped = 0
-    # 2. everything else
+    nres_total = 0
     batch = []
     with open(casesp) as f:
         for line in f:
@@ -468,17 +451,10 @@ def run_layout(ck, tier, name, maxn, exe, workers, tlc_workers, totals):
             for ft in FEATS:
                 if c["feat"][ft]:
                     feat_count[ft] += 1
-            olist = []
             for o in c["ops"]:
                 if o["dev"]:
                     dev_count[o["op"]] += 1
-                if (c["id"], o["op"]) in probed:
-                    continue
-                if is_hang(o) and all_hung and probes:
-                    skipped += 1
-                    continue
-                olist.append(o)
-            batch.append((c, olist))
+            batch.append((c, c["ops"]))
             if len(batch) >= 3000:
                 nres_total += len(execute(batch))
                 batch = []
@@ -486,17 +462,15 @@ def run_layout(ck, tier, name, maxn, exe, workers, tlc_workers, totals):
     os.remove(casesp)
     totals["cases"] += n_emitted[0]
     totals["runs"] += nres_total
-    totals["skipped_predicted_hang"] += skipped
-    totals["probed_hangs"] += len(pres)
     for k, v in cmp_.counts.items():
         totals["cmp"][k] += v
     for k, v in feat_count.items():
         totals["feat"][k] += v
     for k, v in dev_count.items():
         totals["dev"][k] += v
-    log("[C05] %s: %d patterns x %d operations: %d runs compared in %.1fs, %d predicted hangs probed (all hung: %s), %d not "
-        "executed; %s" % (name, n_emitted[0], len(ops), nres_total, t_harness[0], len(pres), all_hung, skipped,
-                          {k: v for k, v in cmp_.counts.items() if not k.startswith("model_")}))
+    log("[C05] %s: %d patterns x %d operations: %d runs compared in %.1fs; %s" %
+        (name, n_emitted[0], len(ops), nres_total, t_harness[0],
+         {k: v for k, v in cmp_.counts.items() if not k.startswith("model_")}))
 
 
 def run_targets(ck, aux, exe, workers, totals):
@@ -541,7 +515,7 @@ def run(tier):
     aux = vlib.tlc_emit_json("EmitUsableAux", auxcfg, os.path.join(ck.work, "aux.json"))
     geom = dict(aux["geom"], seed=vlib.seed())
     json.dump(geom, open(os.path.join(ck.work, "config.json"), "w"))
-    totals = {"states": 0, "transitions": 0, "cases": 0, "runs": 0, "skipped_predicted_hang": 0, "probed_hangs": 0,
+    totals = {"states": 0, "transitions": 0, "cases": 0, "runs": 0,
               "cmp": collections.Counter(), "feat": collections.Counter(), "dev": collections.Counter()}
     for name, maxn in TIERS[tier]:
         run_layout(ck, tier, name, maxn, exe, workers, tlc_workers, totals)
@@ -563,8 +537,6 @@ def run(tier):
     ck.cov["patterns_per_feature"] = dict(totals["feat"])
     ck.cov["comparisons"] = dict(totals["cmp"])
     ck.cov["model_deviations_found_by_tlc_per_operation"] = dict(totals["dev"])
-    ck.cov["predicted_hangs_not_executed"] = totals["skipped_predicted_hang"]
-    ck.cov["predicted_hangs_probed"] = totals["probed_hangs"]
     ck.cov["layouts"] = [{"layout": n, "max_samples": m, "nvar": LAYOUTS[n][0], "ops": LAYOUTS[n][7]} for n, m in TIERS[tier]]
     ck.cov["rule"] = ("every Db pattern enumerated by TLC (selection cell x coordinates x each variable x external drift x "
                       "measurement error, per sample) x every operation of the catalogue, executed on the real masked Db, "
@@ -580,7 +552,7 @@ def run(tier):
         "an undefined measurement error variance may be read either as 'sample unusable' or as 'no error' by kriging "
         "(C05 does not say); both readings are accepted and counted",
         "undefined or negative selection cells are a dedicated category (layout oddsel) reported separately",
-        "a hang predicted by the transcription (conditional simulation with an undefined coordinate) is executed on a "
-        "limited number of patterns per layout as long as every probe hangs",
+        "every run is executed under a CPU time limit (0.4 s per pattern and operation, normal cost < 5 ms): an operation "
+        "that does not return is recorded as a disagreement (crash form, signal 'timeout'), never skipped",
     ]
     return ck.finish()
